@@ -154,10 +154,11 @@ fn tokenize_seed(s: &str) -> Vec<String> {
             out.push("**".into());
             i += 2;
         } else if (c == '-' || c == '+') && i + 1 < cs.len() && cs[i + 1].is_ascii_digit() && out.last().map(|l: &String| !l.chars().last().unwrap().is_alphanumeric() && l != ")").unwrap_or(true) {
-            // signed number
+            // signed number, exponent included (`+21e3` is one literal for the subject's lexer)
             let st = i;
             i += 1;
-            while i < cs.len() && (cs[i].is_ascii_digit() || cs[i] == '.') {
+            let body = i;
+            while i < cs.len() && (cs[i].is_ascii_digit() || cs[i] == '.' || ((cs[i] == 'e' || cs[i] == 'E') && i + 1 < cs.len() && (cs[i + 1].is_ascii_digit() || cs[i + 1] == '-' || cs[i + 1] == '+')) || ((cs[i] == '-' || cs[i] == '+') && i > body && (cs[i - 1] == 'e' || cs[i - 1] == 'E'))) {
                 i += 1;
             }
             out.push(cs[st..i].iter().collect());
